@@ -236,7 +236,38 @@ def h_7797_json_b64_must_be_protected():
               "7797 JSON: b64=false outside the protected header is not honoured (payload stays base64url-decoded)")
 
 
-HARNESSES += [h_7797_compact, h_7797_json_b64_must_be_protected]
+def h_7797_compact_payload_argument():
+    """b64=false token with the payload inline *and* a payload argument given by the caller: whatever payload is
+    returned must be the one the signature covers."""
+    key, k = oct_key("k")
+    hb = b'{"alg":"HS256","b64":false,"crit":["b64"]}'
+    p = sym_bytes("p")
+    assume(b"." not in p and len(p) > 0)
+    q = sym_bytes("q")
+    assume(len(q) > 0)
+    s = sym_bytes("s")
+    token = spec_b64u(hb) + b"." + p + b"." + spec_b64u(s)
+    out = call(d7797_compact, token, key, q, ["HS256"])
+    if out.returned:
+        check(py_eq(s, spec_hmac("sha256", k, spec_b64u(hb) + b"." + out.value.payload)),
+              "7797 compact: the payload returned is the one the signature covers (payload argument given for an inline token)")
+
+
+def _seed_7797_arg(rnd):
+    import hmac as _hmac
+    import hashlib as _hashlib
+    from pyvc.spec import ref_B64U
+    k = b"secret-key"
+    hb = b'{"alg":"HS256","b64":false,"crit":["b64"]}'
+    p = rnd.choice([b"hello", b"abc~d"])
+    q = rnd.choice([b"evil", b"hello", b"x"])
+    sig_p = _hmac.new(k, ref_B64U(hb) + b"." + p, _hashlib.sha256).digest()
+    sig_q = _hmac.new(k, ref_B64U(hb) + b"." + q, _hashlib.sha256).digest()
+    return {"k": k, "p": p, "q": q, "s": rnd.choice([sig_p, sig_q])}
+
+
+h_7797_compact_payload_argument.seed_fn = _seed_7797_arg
+HARNESSES += [h_7797_compact, h_7797_json_b64_must_be_protected, h_7797_compact_payload_argument]
 
 
 def _seed_7797(rnd):
